@@ -87,6 +87,12 @@ def run_impl(scenario, tables, schedule, max_steps, timestep, seed=0, raise_guar
         scene, _ = scenario.generate(maxIterations=1, verbosity=0)
     except RejectionException:
         return {"kind": "scene-reject", "time": 0, "log": list(CTX.log)}
+    return simulate_scene(scene, schedule, max_steps, timestep, raise_guards, sim_kwargs, world_kwargs)
+
+
+def simulate_scene(scene, schedule, max_steps, timestep, raise_guards=False, sim_kwargs=None,
+                   world_kwargs=None):
+    """Simulate an existing scene once under SimWorld (the environment must be set)."""
     CTX.log.clear()
     world = simworld.SimWorld(schedule=schedule, **(world_kwargs or {}))
     out = {}
